@@ -229,8 +229,10 @@ func (m *moduleEngine) putLocalMemory() {
 
 	s := uint64(len(mem.Buffer))
 	var b uint64
-	if len(mem.Buffer) > 0 {
-		b = uint64(uintptr(unsafe.Pointer(&mem.Buffer[0])))
+	// The buffer of a shared memory is allocated up to its maximum and never moves, so compiled code
+	// does not reload the base after a call: it must be published even while the memory has zero pages.
+	if cap(mem.Buffer) > 0 {
+		b = uint64(uintptr(unsafe.Pointer(unsafe.SliceData(mem.Buffer))))
 	}
 	binary.LittleEndian.PutUint64(m.opaque[offset:], b)
 	binary.LittleEndian.PutUint64(m.opaque[offset+8:], s)
